@@ -115,6 +115,27 @@ pub fn run(case: &Value) -> Value {
                 Err(e) => json!({"ok": false, "doc_err": format!("{:?}", e)}),
             }
         }
+        "created_parent" => {
+            // a node whose parent was made by create_element: parent link, and a move away from that parent
+            use xml_dom::{AsNode, Document, DocumentMut, Node, NodeMut};
+            let (_, doc) = xml_dom::XmlDocument::from_raw("<r/>").unwrap();
+            let root = doc.document_element().unwrap();
+            let label = |n: &xml_dom::XmlNode| -> String { n.node_name() };
+            let p = doc.create_element("p").unwrap();
+            let attach_first = case["attach_first"].as_bool().unwrap_or(true);
+            if attach_first {
+                root.append_child(p.as_node()).unwrap();
+            }
+            let c = doc.create_element("c").unwrap();
+            let r1 = p.append_child(c.as_node()).is_ok();
+            let parent_of_c = c.as_node().parent_node().map(|n| label(&n));
+            let r2 = root.append_child(c.as_node()).is_ok();
+            let p_children: Vec<String> = p.child_nodes().iter().map(|n| label(&n)).collect();
+            let root_children: Vec<String> = root.child_nodes().iter().map(|n| label(&n)).collect();
+            let parent_after = c.as_node().parent_node().map(|n| label(&n));
+            json!({"ok": true, "append_to_created": r1, "parent_of_c": parent_of_c, "move_ok": r2, "p_children_after_move": p_children,
+                   "root_children_after_move": root_children, "parent_of_c_after_move": parent_after, "printed": format!("{}", doc)})
+        }
         "mutate" => mutate(case),
         "chardata" => chardata(case),
         "create" => create(case),
